@@ -478,7 +478,7 @@ macro_rules! c11_request {
             let mut options: Vec<TransferOption> = Vec::new();
             let mut i = 0;
             while i < $nopt {
-                let c: u8 = if $ocode < 4 { ($ocode + i as u8) % 4 } else { let c: u8 = kani::any(); kani::assume(c < 4); c };
+                let c: u8 = if $ocode >= 10 { $ocode - 10 } else if $ocode < 4 { ($ocode + i as u8) % 4 } else { let c: u8 = kani::any(); kani::assume(c < 4); c };
                 let v: usize = if $vlo == $vhi { $vlo } else { let v: usize = kani::any(); kani::assume(v >= $vlo && v <= $vhi); v };
                 options.push(TransferOption { option: opt_of(c), value: v });
                 n = ref_put_option(&mut out, n, c, v);
